@@ -14,16 +14,18 @@ RULE = ('2..6 sessions of all codecs, roles and parameters (encoders with NULL/o
 def session_body(c):
     return c.lines[1:]          # without the 'case' line
 
-def make_session(rng, sid, tier, small=False):
-    kind = rng.choice(['rs8', 'rs2m8', 'rs2m4', 'ldpc', 'ldpc'])
+def make_session(rng, sid, tier, small=False, kr=None):
+    kind = rng.choice(['rs8', 'rs2m8', 'rs2m4', 'ldpc', 'ldpc'] if kr is None else ['rs8', 'rs2m8', 'rs2m4', 'rs2m8', 'rs2m4', 'ldpc'])
     if kind == 'ldpc':
         k = rng.randint(2, 12 if small else 60); r = rng.randint(3, 10 if small else 40)
+        if kr: k, r = kr[0], max(3, kr[1])
         cfg = gens.Cfg(kind, k, r, N1=rng.choice([3, 4, 5]) if r >= 5 else 3, seed=rng.choice([1, 7, 7, rng.randint(1, 2 ** 31 - 2)]),
                        payload=rng.choice(['id', 'rand']), pseed=rng.randint(0, 99))
         sub = gens.ldpc_loss_subset(rng, cfg)
     else:
         lim = 15 if kind == 'rs2m4' else (12 if small else 40)
         n = rng.randint(2, lim); k = rng.randint(1, n - 1)
+        if kr: k, n = kr[0], kr[0] + kr[1]
         cfg = gens.Cfg(kind, k, n - k, payload=rng.choice(['id', 'rand']), pseed=rng.randint(0, 99))
         sub = rng.sample(range(n), rng.randint(max(0, k - 1), n))
     if rng.random() < 0.3:
@@ -60,7 +62,11 @@ def run(res, tier, seed, gen_errs):
     ngroups = 60 if tier == 'quick' else 800
     for g in range(ngroups):
         ns = rng.randint(2, 6)
-        solos = [make_session(rng, sid, tier)[0] for sid in range(ns)]
+        # every third group: all sessions share (k, n-k) (n <= 15) across codecs, fields and seeds — what a cache keyed too coarsely would confuse
+        kr = None
+        if g % 3 == 0:
+            nn = rng.randint(4, 15); kk = rng.randint(1, nn - 3); kr = (kk, nn - kk)
+        solos = [make_session(rng, sid, tier, kr=kr)[0] for sid in range(ns)]
         for s in solos: s.name = 'g%d-%s' % (g, s.name)
         lines, owner = interleave(rng, [session_body(s) for s in solos])
         inter = corr.mk('g%d-inter' % g, lines); inter.meta = {}
